@@ -995,6 +995,12 @@ impl Expire {
 						let s2 = receive_raw(&sim, X, &s1).map_err(|e| format!("X receive_tx: {}", e))?;
 						reached = 1;
 						if stage >= 2 {
+							if args.late_lock && c.k % 2 == 1 {
+								// a late-locked send selects and reserves at finalize time: let the chain move on in between,
+								// the recorded cutoff must still be the one the slate carries
+								sim.mine(None, 0)?;
+								hist.push(format!("block mined between reply and late-locked finalize, tip {}", sim.world.height()));
+							}
 							let s3 = finalize_raw(&sim, W, &s2, false).map_err(|e| format!("W finalize_tx: {}", e))?;
 							entry_exists = true;
 							reached = 2;
